@@ -61,6 +61,7 @@ class Spec:
     object_params: tuple[str, ...] = ()  # parameters that are objects, only looked at through `opaque` expressions
     refusal_returns: bool = False  # `return (code, subcode, text)` is a refusal: PyRes.raise code subcode (the text is not modelled)
     return_map: dict[str, tuple[str, str]] = field(default_factory=dict)  # `return <source>` ≡ raise (x_<a>, x_<b>): a refusal whose codes are inputs
+    tuple_result: tuple[int, int, int] | None = None  # `return e0, …, en` with e[err] = None ≡ ret (e[i], e[j]); with e[err] = NotifyError(c, s, …) ≡ raise c s (the other elements are buffers: not modelled)
 
 
 @dataclass
@@ -289,6 +290,20 @@ class _Tr:
                 if ta != 'int' or tb != 'int':
                     raise Unsupported(f'{self.fname}: refusal codes are not int: {ast.unparse(s.value)[:60]}')
                 return pad + f'PyRes.raise {a} {b}'
+            if sp.tuple_result is not None and isinstance(s.value, ast.Tuple) and len(s.value.elts) > max(sp.tuple_result):
+                i, j, k = sp.tuple_result
+                err = s.value.elts[k]
+                if isinstance(err, ast.Constant) and err.value is None:
+                    (a, ta), (b, tb) = self.expr(s.value.elts[i], env), self.expr(s.value.elts[j], env)
+                    if ta != 'int' or tb != 'int' or sp.ret != 'int*int':
+                        raise Unsupported(f'{self.fname}: result tuple ({ta}, {tb}), declared {sp.ret}')
+                    return pad + self.ret(f'({a}, {b})')
+                if isinstance(err, ast.Call) and _dotted(err.func) in ('NotifyError', 'Notify') and len(err.args) >= 2:
+                    (a, ta), (b, tb) = self.expr(err.args[0], env), self.expr(err.args[1], env)
+                    if ta != 'int' or tb != 'int':
+                        raise Unsupported('NotifyError code/subcode not int')
+                    return pad + f'PyRes.raise {a} {b}'
+                raise Unsupported(f'{self.fname}: error element of the result tuple: {ast.unparse(err)[:60]}')
             if isinstance(s.value, ast.Tuple) and sp.ret == 'int*int' and len(s.value.elts) == 2:
                 (a, ta), (b, tb) = (self.expr(x, env) for x in s.value.elts)
                 if ta != 'int' or tb != 'int':
